@@ -214,6 +214,18 @@ void run(size_t idx) {
 		ApiModel m = buildApiModel(seed, (int)idx, &ao);
 		if (!m.ok) return;
 		NifFile cp(*m.nif);
+		if (idx % 4 == 2 && cp.GetRootNode() && cp.GetHeader().GetNumBlocks() > 2) {
+			// a geometry block without data (placeholder shape) stored in front of the real shapes
+			auto ph = std::make_unique<NiTriShape>();
+			ph->name.get() = "Placeholder";
+			uint32_t id = cp.GetHeader().AddBlock(std::move(ph));
+			cp.GetRootNode()->childRefs.AddBlockRef(id);
+			uint32_t nb = cp.GetHeader().GetNumBlocks();
+			std::vector<uint32_t> order(nb);
+			for (uint32_t i = 0; i < nb; i++) order[i] = i == id ? 1 : i >= 1 ? i + 1 : i;   // the new block becomes block 1
+			cp.GetHeader().SetBlockOrder(order);
+			m.desc += " +placeholder shape without data in front";
+		}
 		checkModel(saveNif(cp, true), "api:" + m.desc, seed);
 		if (idx == 0) R_sample(fmt("{\"source\":\"api\",\"model\":\"%s\"}", jesc(m.desc).c_str()));
 	}
